@@ -7,7 +7,7 @@
 From Coq Require Import String List NArith ZArith Bool Lia.
 From SK Require Import lib.Tok lib.LGraph lib.StrJoin model.C10_Model model.C10_Rxn proof.C10_Proof proof.C10_Views proof.C10_Build
   proof.C10_Copy proof.C10_GmlRead proof.C10_GmlWrite proof.C10_Centre proof.C10_Routes proof.C10_Routes2 proof.C10_Hydrogen
-  proof.C10_HRound proof.C10_GmlEH proof.C10_Smart proof.C10_Relabel proof.C10_Reindex proof.C10_ReindexEH.
+  proof.C10_HRound proof.C10_GmlEH proof.C10_Smart proof.C10_MolOk proof.C10_Relabel proof.C10_Reindex proof.C10_ReindexEH.
 Import ListNotations.
 Local Open Scope Z_scope.
 
@@ -82,6 +82,21 @@ Proof.
   intros Hr Hp Hb He. apply three_routes_sec; auto. apply eo_covers_spec. exact He.
 Qed.
 
+
+
+(** ** ... starting from what the code reads from RDKit: two molecule records in the contract [rdmol_ok] *)
+Theorem three_routes_from_records (mr mp : rmol) (eo : list (N * N)) (eh : bool) :
+  rdmol_ok mr = true -> rdmol_ok mp = true ->
+  let r := mol_to_graph mr true true in
+  let p := mol_to_graph mp true true in
+  balanced r p = true -> eo_covers r p eo = true ->
+  let c := get_rc (its_construct r p eo) in
+  reads_centre c (gml_to_its (smart_to_gml r p eo true false eh)) /\
+  reads_centre c (gml_to_its (its_to_gml (rsmi_to_its r p eo false false) true false eh)) /\
+  reads_centre c (gml_to_its (its_to_gml (rsmi_to_its r p eo true false) true false eh)).
+Proof.
+  intros Hr Hp r p Hb He. apply three_routes; [apply rsmi_graph_mol_ok, Hr|apply rsmi_graph_mol_ok, Hp|exact Hb|exact He].
+Qed.
 
 (** ** the same with reindex=True (the default of its_to_gml): every route gives a renumbering of the centre *)
 Definition reads_centre_by (c : gr) (f : N -> N) (X : gr) : Prop :=
